@@ -452,6 +452,66 @@ def claim_lookup_no_recursion(cx, res, kf):
     res.vacuity.append(("lookup functions explored", n_paths >= 6))
 
 
+def claim_predicates_no_recursion(cx, res, kf):
+    """C16: the list predicates walk the list with an iterator: `is_list` / `is_dotted_list` never call a list predicate again on
+    the rest of the list (one stack frame per element)."""
+    from .serde import sym_value
+    VAL = cx.enums["Value"]
+    n_paths = 0
+    for name in ("is_list", "is_dotted_list"):
+        fn = C.resolve_callee(cx, "Value::" + name)
+        if fn is None:
+            res.error = "Value::%s not found" % name
+            return
+        eng = C.make_engine(cx, [], loop_mode="cut", timeout_s=60, max_paths=2000)
+
+        def h_again(engine, st, fr, callee_, argv, m):
+            st.events.append(("predicate_again", callee_))
+            return engine.sym_bool("again")
+
+        def h_cdr(engine, st, fr, callee_, argv, m):
+            return Ref(("V", sym_value(cx, engine, st, "cdr%d" % next(engine.fresh), 0)))
+
+        def h_iter(engine, st, fr, callee_, argv, m):
+            return Opaque("Iter", "cells")
+
+        def h_all(engine, st, fr, callee_, argv, m):
+            # the closure applied to ONE arbitrary cell of the list, or no cell at all
+            cl = argv[1]
+            f = S.closure_fn(engine, cl)
+            cell = Ref(("V", Opaque("Cons", "some cell")))
+            st.events.append(("all",))
+            return ("fork", [(z3.BoolVal(True), ("frame", f, S.fargs(f, cl, [cell]), None), None)])
+        eng.stubs = [(re.compile(r"^Value::(is_list|is_dotted_list)$"), h_again), (re.compile(r"^Cons::(cdr|car)$"), h_cdr),
+                     (re.compile(r"^Cons::iter$"), h_iter), (re.compile(r"^<cons::Iter<'_> as Iterator>::(all|any)::<"), h_all)] + S.COMBINATOR_STUBS + S.CORE_STUBS
+
+        def init(e, st, fr, fn=fn):
+            v = sym_value(cx, e, st, "v", 0)
+            v.variants[VAL.index("Cons")] = [Opaque("Cons", "the cell", {})]
+            st.heap["v"] = v
+            fr.locals[fn.args[0]] = Ref(("H", "v"))
+            return []
+
+        def onm(m):
+            done = RP.stack_op("is_list", 300000)
+            res.replays += 1
+            if done is False:
+                return {"replayed": True, "observed": "is_list / is_dotted_list on 300000 elements did not complete on a 2 MiB stack", "witness": {"kind": "stack", "op": "is_list", "n": 300000}}
+            return {"replayed": False, "observed": "completed"}
+        try:
+            terms = eng.explore(fn.name, init)
+        except Unsupported as e:
+            res.error = "unsupported: Value::%s: %s" % (name, e)
+            return
+        res.absorb(eng)
+        for t in terms:
+            n_paths += 1
+            again = [e for e in t.state.events if e[0] == "predicate_again"]
+            if again:
+                res.must_be_unsat(list(t.state.pc), "Value::%s calls %s for the rest of the list: one stack frame per element" % (name, again[0][1]), onm)
+    res.vacuity.append(("list predicates explored", n_paths >= 6))
+
+
 def claim_ignored_any(cx0, res, kf):
     """Skipping an unknown field (serde's IgnoredAny) must not walk the skipped value: deserialize_ignored_any only tells
     the visitor `unit`; forwarding to deserialize_any would present a list as nested (car, cdr) pairs, one stack frame per
@@ -576,6 +636,10 @@ CLAIMS = [
           "Value::get / indexing by value, by name and by position: no `index_into` implementation calls an `index_into` again for "
           "the rest of the list on any path (the walk is a loop, not one stack frame per entry)",
           "arbitrary target, entry and key kinds; all paths of the three implementations", configs=("fast",), also=("C15",)),
+    Claim("c16_predicates_no_recursion", "C16", "quick", claim_predicates_no_recursion,
+          "Value::is_list / is_dotted_list never call a list predicate again for the rest of the list on any path (the walk is the cell "
+          "iterator's loop, not one stack frame per element)",
+          "arbitrary value kinds, abstract cells", configs=("fast",), also=("C15",)),
     Claim("c16_error_paths_shallow", "C16", "quick", claim_error_paths_shallow,
           "the error built for a value of the wrong kind never formats that value (no Debug / Display of a list from inside from_value)",
           "every value kind", configs=("fast",), crate="serde-lexpr"),
